@@ -17,12 +17,13 @@ def fam(cfg: dict[str, Any], alphabet: list[str], depth: int,
         exhaustive: bool = True, num: int = 0, spec_depth: int | None = None,
         strict: bool = False, replay_cfgs: list[dict[str, Any]] | None = None,
         save_args: tuple = (True, False), load_args: tuple = (True, False),
-        ) -> dict[str, Any]:
+        script: list | None = None) -> dict[str, Any]:
     """replay_cfgs: configurations under which the generated behaviours are
     replayed (default: the generating one); they must agree with cfg on every
     field KfacRef depends on (intervals, hooks, hyper-parameters)."""
     return {'strict': strict, 'replay_cfgs': replay_cfgs, 'cfg': cfg,
-            'ckw': {'save_args': save_args, 'load_args': load_args}, 'alphabet': alphabet, 'depth': depth,
+            'ckw': {'save_args': save_args, 'load_args': load_args,
+                    **({'script': script} if script else {})}, 'alphabet': alphabet, 'depth': depth,
             'micro': micro or [1], 'sched_args': sched_args or [-1],
             'exhaustive': exhaustive, 'num': num,
             'spec_depth': spec_depth or depth}
